@@ -511,6 +511,8 @@ class TokInterp(Interp):
             return [(('bound', v, attr), st)]
         if t == 'range' and attr == 'startswith':
             return [(('bound', v, attr), st)]
+        if t in ('ptok', 'tok', 'item', 'staleitem') and attr in ('endswith', 'startswith', 'isspace', 'isalpha', 'isdigit'):
+            return [(('bound', v, attr), st)]
         self.unsupported('attribute .%s of %s' % (attr, t), n)
 
     def ev_Lambda(self, n, st):
@@ -800,6 +802,15 @@ class TokInterp(Interp):
                     self.unsupported('dict.%s' % fv[2], n)
             elif fv[0] == 'func':
                 outs += self.call_func(fv[1], n, s1)
+            elif fv[0] == 'bound' and fv[1][0] in ('ptok', 'tok', 'item', 'staleitem') and fv[2] in (
+                    'endswith', 'startswith', 'isspace', 'isalpha', 'isdigit'):
+                # a test on the text of a token: not determined by the categories -- either outcome
+                for vals, s2 in self.evs(n.args, s1):
+                    if isinstance(vals, Raised):
+                        outs.append((vals, s2))
+                    else:
+                        outs.append((('const', True), s2))
+                        outs.append((('const', False), s2.copy()))
             elif fv[0] == 'bound' and fv[1][0] == 'range' and fv[2] == 'startswith' and len(n.args) == 1 and not n.keywords:
                 for pv, s2 in self.ev(n.args[0], s1):
                     if isinstance(pv, Raised):
